@@ -141,4 +141,13 @@ def estLevel (L : Nat) : Nat :=
 def estStreamLevel (L : Nat) : Nat :=
   (List.range L).foldl (fun acc k => max acc (estimateUsingCParams (rowAt 3 (k + 1)) true)) 0
 
+/-! ### domination test used at run time (hypothesis of `Props.C14.usingCParams_covers` / `level_covers`) -/
+
+/-- decidable form of `Estimate.Le` (Lemmas/Estimate.lean): same kind of job, smaller logs / pledged size / buffers, no long-distance matching -/
+def leB (p q : RP) : Bool :=
+  decide (p.windowLog ≤ q.windowLog) && decide (p.chainLog ≤ q.chainLog) && decide (p.hashLog ≤ q.hashLog) && decide (p.pledged ≤ q.pledged) &&
+  decide (p.minMatch = q.minMatch) && decide (p.strategy = q.strategy) && decide (p.useRow = q.useRow) && decide (p.ldm = false) &&
+  decide (p.extSeq = q.extSeq) && decide (p.maxBlockSize ≤ q.maxBlockSize) && decide (p.isStatic = q.isStatic) &&
+  decide (p.buffIn ≤ q.buffIn) && decide (p.buffOut ≤ q.buffOut)
+
 end ZstdVerif.Estimate
